@@ -195,6 +195,36 @@ def string_effect_cases():
     return cases
 
 
+def array_literal_cases():
+    """array literals whose elements have effects, in every position a literal can stand (declaration, assignment to an existing
+    array, struct member array, 2-D, argument, double / string elements): each element exactly once, left to right; the expected
+    trace is computed here (CbRef has array initialisers in declarations only)"""
+    HDR = ("int tg(int k) {\n    println(\"t\", k);\n    return k * 10;\n}\ndouble td(int k) {\n    println(\"d\", k);\n    return k + 0.5;\n}\n"
+           "string ts(int k) {\n    println(\"s\", k);\n    return \"v\";\n}\nstruct Box { int[3] arr; int z; };\nint sum3(int[3] q) {\n    return q[0] + q[1] + q[2];\n}\n")
+    cases = []
+
+    def c(cid, body, out):
+        cases.append({"id": cid, "program": HDR + "int main() {\n    int i = 0;\n" + body + "    println(\"END\");\n    return 0;\n}\n",
+                      "expect_class": "ok", "expect_stdout": out + "END\n"})
+    t3 = "t 1\nt 2\nt 3\n"
+    c("decl", "    int[3] a = [tg(1), tg(2), tg(3)];\n    println(a[0], a[1], a[2]);\n", t3 + "10 20 30\n")
+    c("assign", "    int[3] a = [0, 0, 0];\n    a = [tg(1), tg(2), tg(3)];\n    println(a[0], a[1], a[2]);\n", t3 + "10 20 30\n")
+    c("assign-first-literal", "    int[3] a = [0, 0, 0];\n    a = [7, tg(2), tg(3)];\n    println(a[0], a[1], a[2]);\n", "t 2\nt 3\n7 20 30\n")
+    c("assign-incr", "    int[3] a = [0, 0, 0];\n    a = [i++, i++, i++];\n    println(a[0], a[1], a[2], i);\n", "0 1 2 3\n")
+    c("assign-preincr", "    int[3] a = [0, 0, 0];\n    a = [++i, ++i, ++i];\n    println(a[0], a[1], a[2], i);\n", "1 2 3 3\n")
+    c("decl-incr", "    int[3] a = [i++, i++, i++];\n    println(a[0], a[1], a[2], i);\n", "0 1 2 3\n")
+    c("assign-twice", "    int[3] a = [0, 0, 0];\n    a = [tg(1), tg(2), tg(3)];\n    a = [tg(4), tg(5), tg(6)];\n    println(a[0], a[1], a[2]);\n", t3 + "t 4\nt 5\nt 6\n40 50 60\n")
+    c("member-assign", "    Box b;\n    b.z = 1;\n    b.arr = [tg(1), tg(2), tg(3)];\n    println(b.arr[0], b.arr[1], b.arr[2]);\n", t3 + "10 20 30\n")
+    c("assign-2d", "    int[2][2] m = [[0, 0], [0, 0]];\n    m = [[tg(1), tg(2)], [tg(3), tg(4)]];\n    println(m[0][0], m[0][1], m[1][0], m[1][1]);\n", t3 + "t 4\n10 20 30 40\n")
+    c("decl-2d", "    int[2][2] m = [[tg(1), tg(2)], [tg(3), tg(4)]];\n    println(m[0][0], m[0][1], m[1][0], m[1][1]);\n", t3 + "t 4\n10 20 30 40\n")
+    c("assign-in-loop", "    int[3] a = [0, 0, 0];\n    for (int k = 0; k < 2; k++) {\n        a = [tg(k), tg(k + 1), tg(k + 2)];\n    }\n    println(a[0], a[1], a[2]);\n",
+      "t 0\nt 1\nt 2\nt 1\nt 2\nt 3\n10 20 30\n")
+    c("assign-expr-first", "    int[3] a = [0, 0, 0];\n    a = [tg(1) + tg(2), tg(3), 4];\n    println(a[0], a[1], a[2]);\n", t3 + "30 30 4\n")
+    # (string array literals with call elements are not supported: the declaration is a type error, the assignment ends the run)
+    c("decl-double", "    double[2] d = [td(1), td(2)];\n    println(d[0], d[1]);\n", "d 1\nd 2\n1.5 2.5\n")
+    return cases
+
+
 def main(a):
     c = RefCheck(PID, a, ["CbProofs", "CbProps.C03"], THEOREMS)
     if not c.build():
@@ -211,6 +241,7 @@ def main(a):
         s, st = gen_core.gen_program(a.seed, 31, k, c.gates, size=18, features={"effect_leaves": True})
         progs.append(s)
     c.raw_suite("string-effects", string_effect_cases(), max_report=4)
+    c.raw_suite("array-literals", array_literal_cases(), max_report=4)
     c.suite("random-effectful", progs, nontrivial=lambda r: hash(r.stdout) if r.stdout.count("t ") > 1 else None)
     return c.finish(
         rule="operands are calls t(k,v) that print k: the printed sequence is the evaluation order. exhaustive: every "
